@@ -192,7 +192,7 @@ Result(api, sk, kk, n, L, R, ss, ks) ==
          \* sts_drain takes "no memory" from the sink as the cue to go on through a buffer the source offers; with plain endpoints
          \* there is none and the call ends with "broken pipe" (an error either way; what reached the sink is a prefix)
          [] api = "dsts" -> LET r == DrainCbc(sk, kk, e) IN PlumbObs(IF r.rc = ENOMEM THEN Ret(EPIPE, r.e) ELSE r)
-         \* (R > 10 encodes a designated region of R - 10 octets that starts 2 octets into the auxiliary block)
+         \* (R > 10 encodes a designated region of R % 10 octets that starts 2 - R > 20: 8 - octets into the auxiliary block)
          \* the same four calls when the (chunk-style) source offers a scratch buffer of R octets: "sstx", "astx", "nstx", "dstx"
          [] api = "sstx" -> PlumbObs(ViaSource(kk, e, R, 0))
          [] api = "astx" -> PlumbObs(IF sk = 1 THEN ViaSourceO(kk, e, R, n) ELSE ViaSource(kk, e, R, n))
@@ -200,8 +200,10 @@ Result(api, sk, kk, n, L, R, ss, ks) ==
          [] api = "dstx" -> PlumbObs(DrainExt(kk, e, R))
          [] api = "someaux" -> PlumbObs(SomeAux(sk, kk, e, R % 10))
          [] api = "amaux" -> PlumbObs(SomeAux(sk, kk, e, MinOf(R % 10, n)))
-         [] api = "naux" -> LET r == NAux(sk, kk, e, R, n) IN PlumbObs(IF r.rc < 0 THEN r ELSE Ret(n, r.e))
-         [] OTHER -> PlumbObs(DrainAux(sk, kk, e, R))     \* "daux"
+         \* the counted and the draining call rewind the auxiliary buffer first: whatever its read offset, a step carries at most the
+         \* R % 10 octets of its region (then at the front of the block), and the block is otherwise left alone
+         [] api = "naux" -> LET r == NAux(sk, kk, e, R % 10, n) IN PlumbObs(IF r.rc < 0 THEN r ELSE Ret(n, r.e))
+         [] OTHER -> PlumbObs(DrainAux(sk, kk, e, R % 10))     \* "daux"
 
 ---------------------------------------------------------------------------
 (* N beyond INT_MAX (2^31 .. 2^32 + k, as four 16-bit words): chunk-style drivers that account for the octets without touching
@@ -269,10 +271,10 @@ Next == /\ phase[1] = "b" /\ ev' = Boot
               \/ /\ api = "geto" /\ \E L \in {0, 1}, ss \in Scripts(Beh, 1) : phase' = <<"c", api, k, 2, 1, L, 0, ss, <<>>>>
               \/ /\ api = "puto" /\ \E ks \in Scripts(Beh, 1) : phase' = <<"c", api, 2, k, 1, 0, 0, <<>>, ks>>
               \/ /\ api \in PlApis
-                 /\ \E kk \in {1, 2}, n \in 1..3, L \in {2, 4}, R \in {1, 2, 3, 11, 12, 13},   \* R + 10: the region starts 2 octets into the block
+                 /\ \E kk \in {1, 2}, n \in 1..3, L \in {2, 4}, R \in {1, 2, 3, 11, 12, 13, 21, 22, 23},   \* R + 10: the region starts 2 octets into the block, R + 20: 8 octets
                        ss \in Scripts(PBeh, MaxPScript), ks \in Scripts(PBeh, MaxKScript) :
                        /\ (api \in {"cbc", "ncbc", "dcbc", "ssts", "asts", "nsts", "dsts"} => R = 1)
-                       /\ (api \notin {"someaux", "amaux"} => R < 10)
+                       /\ (api \notin {"someaux", "amaux", "naux", "daux"} => R < 10)
                        /\ (api \in ExtApis => (\A i \in 1..Len(ss) : ss[i] # ENOMEM) /\ (\A i \in 1..Len(ks) : ks[i] # ENOMEM))   \* a full sink behind a source-offered buffer: not specified
                        /\ (api \in {"sstx", "dstx"} => k = 2)                               \* "some" and "drain": chunk-style sources only
                        /\ (api \in {"astx", "nstx"} /\ k = 1 => L = 4 /\ n <= 2 /\ (\A i \in 1..Len(ss) : ss[i] # EIO))   \* octet-style: plenty of data
